@@ -64,3 +64,53 @@ func EncodeVal(v reflect.Value) []int64 {
 	}
 	panic(fmt.Sprintf("EncodeVal: unsupported kind %s", t.Kind()))
 }
+
+// EncodeValJ: as EncodeVal, but a timestamp is the string it marshals to (C04 treats its text as opaque).
+func EncodeValJ(v reflect.Value) []int64 {
+	t := v.Type()
+	if t == dt16 || t == dt2 {
+		b, err := v.Addr().Interface().(interface{ MarshalJSON() ([]byte, error) }).MarshalJSON()
+		if err != nil || len(b) < 2 {
+			return []int64{4, 0}
+		}
+		rs := []rune(string(b[1 : len(b)-1]))
+		out := []int64{4, int64(len(rs))}
+		for _, r := range rs {
+			out = append(out, int64(r))
+		}
+		return out
+	}
+	switch t.Kind() {
+	case reflect.Ptr, reflect.Interface:
+		if v.IsNil() {
+			return []int64{0}
+		}
+		if t.Kind() == reflect.Ptr {
+			return EncodeValJ(v.Elem())
+		}
+		return EncodeValJ(v.Elem())
+	case reflect.Slice:
+		if v.IsNil() {
+			return []int64{0}
+		}
+		out := []int64{6, int64(v.Len())}
+		for i := 0; i < v.Len(); i++ {
+			out = append(out, EncodeValJ(v.Index(i))...)
+		}
+		return out
+	case reflect.Struct:
+		var fields [][]int64
+		for i := 0; i < t.NumField(); i++ {
+			if t.Field(i).PkgPath != "" {
+				continue
+			}
+			fields = append(fields, EncodeValJ(v.Field(i)))
+		}
+		out := []int64{7, int64(len(fields))}
+		for _, f := range fields {
+			out = append(out, f...)
+		}
+		return out
+	}
+	return EncodeVal(v)
+}
